@@ -1803,6 +1803,9 @@ func (p *proxy) forwardFetch(ctx context.Context, header *protocol.RequestHeader
 					}
 				}
 			}
+			// A broker reply that leaves out a partition it was sent must not make
+			// that partition vanish from the client's reply.
+			addFetchErrorForMissingPartitions(merged, r.subReq, r.subResp, protocol.REQUEST_TIMED_OUT)
 			if r.subResp.ThrottleMillis > merged.ThrottleMillis {
 				merged.ThrottleMillis = r.subResp.ThrottleMillis
 			}
@@ -1917,6 +1920,40 @@ func addFetchErrorForAllPartitions(resp *kmsg.FetchResponse, req *kmsg.FetchRequ
 	for _, topic := range req.Topics {
 		tr := findOrAddFetchTopicResponse(resp, topic.Topic, topic.TopicID)
 		for _, part := range topic.Partitions {
+			tr.Partitions = append(tr.Partitions, kmsg.FetchResponseTopicPartition{
+				Partition: part.Partition,
+				ErrorCode: errorCode,
+			})
+		}
+	}
+}
+
+// addFetchErrorForMissingPartitions adds an error entry for every partition of
+// req that the broker's reply does not mention.
+func addFetchErrorForMissingPartitions(resp *kmsg.FetchResponse, req *kmsg.FetchRequest, got *kmsg.FetchResponse, errorCode int16) {
+	answered := make(map[string]map[int32]bool, len(got.Topics))
+	for _, topic := range got.Topics {
+		key := fetchTopicKey(topic.Topic, topic.TopicID)
+		if answered[key] == nil {
+			answered[key] = make(map[int32]bool, len(topic.Partitions))
+		}
+		for _, part := range topic.Partitions {
+			answered[key][part.Partition] = true
+		}
+	}
+	var zeroID [16]byte
+	for _, topic := range req.Topics {
+		// Brokers answer v13+ topics by ID only; match on whichever form the reply used.
+		byName := answered[fetchTopicKey(topic.Topic, topic.TopicID)]
+		var byID map[int32]bool
+		if topic.TopicID != zeroID {
+			byID = answered[fetchTopicKey("", topic.TopicID)]
+		}
+		for _, part := range topic.Partitions {
+			if byName[part.Partition] || byID[part.Partition] {
+				continue
+			}
+			tr := findOrAddFetchTopicResponse(resp, topic.Topic, topic.TopicID)
 			tr.Partitions = append(tr.Partitions, kmsg.FetchResponseTopicPartition{
 				Partition: part.Partition,
 				ErrorCode: errorCode,
